@@ -342,18 +342,23 @@ def gen_targeted(rng, count=60):
             cfg = dict(devs=devs, script=script, horizon=H, pools={'A': rng.choice([1, 2])})
             fam = 'between-runs'
         elif kind == 6 and i % 32 >= 16:   # machines behind pass-through branches, parts piling up in a buffer first
-            devs = [src(rng.choice([1, 2]), rng.choice([4, 6, 9]), pval=1),
-                    dev('buffer', [1], cap=-1, delay=0),
-                    dev(rng.choice(['gate', 'junction']), [2]), dev(rng.choice(['gate', 'junction']), [2]),
-                    dev('processor', [3], cyc=rng.choice([2, 3, 5])), dev('processor', [3], cyc=rng.choice([2, 4])),
-                    dev('processor', [4], cyc=rng.choice([1, 3])),
-                    dev('sink', [5, 6, 7], cyc=0)]
-            t0 = rng.choice([4, 6, 8])
-            script = [dict(t=0, prio=115, call='block', dev=3), dict(t=0, prio=115, call='block', dev=4),
-                      dict(t=0, prio=115, call='shutdown', dev=5), dict(t=0, prio=115, call='shutdown', dev=6),
-                      dict(t=0, prio=115, call='shutdown', dev=7),
-                      dict(t=1, call='restore', dev=5), dict(t=3, call='restore', dev=7), dict(t=4, call='restore', dev=6),
-                      dict(t=t0, call='unblock', dev=3), dict(t=t0, call='unblock', dev=4)]
+            two = i % 64 >= 32      # a second buffer behind one blocked gate: several parts handed over by one pass event
+            pre = [dev('buffer', [1], cap=-1, delay=0), dev('gate', [2])] if two else []
+            b = len(pre) + 2
+            devs = [src(rng.choice([1, 2]), rng.choice([4, 6, 9]), pval=1)] + pre + [
+                    dev('buffer', [b - 1], cap=-1, delay=0),
+                    dev(rng.choice(['gate', 'junction']), [b]), dev(rng.choice(['gate', 'junction']), [b]),
+                    dev('processor', [b + 1], cyc=rng.choice([2, 3, 5])), dev('processor', [b + 1], cyc=rng.choice([2, 4])),
+                    dev('processor', [b + 2], cyc=rng.choice([1, 3])),
+                    dev('sink', [b + 3, b + 4, b + 5], cyc=0)]
+            t0 = rng.choice([6, 8]) if two else rng.choice([4, 6, 8])
+            back = [1, 3, 4]
+            rng.shuffle(back)
+            blocked = [3] if two else [b + 1, b + 2]
+            script = [dict(t=0, prio=115, call='block', dev=g) for g in blocked] + \
+                     [dict(t=0, prio=115, call='shutdown', dev=b + 3 + j) for j in range(3)] + \
+                     [dict(t=back[j], call='restore', dev=b + 3 + j) for j in range(3)] + \
+                     [dict(t=t0, call='unblock', dev=g) for g in blocked]
             cfg = dict(devs=devs, script=script, horizon=H + 8)
             fam = 'idle-longest'
         elif kind == 6:   # parallel machines, one blocked for a while from (nearly) the start: idle longest
@@ -385,6 +390,17 @@ def gen_targeted(rng, count=60):
                       dict(t=rng.choice([9, 12]), call='adjust', dev=1, arg=rng.choice([-1, 1, 2]))]
             cfg = dict(devs=devs, script=script, horizon=H)
             fam = 'empty-source'
+        elif kind == 5 and i % 32 == 29:  # a work order that starts at the very instant a resource-using machine finishes
+            sc, c = rng.choice([4, 5]), rng.choice([2, 3])
+            devs = [src(sc, rng.choice([2, 3]), pval=1),
+                    dev('processor', [1], cyc=c, req={'A': 1}, wodur=rng.choice([2, 3, 5]), wocap=rng.choice([0, 1]), wocost=1),
+                    dev('sink', [2], cyc=0),
+                    src(rng.choice([3, 7]), 2, pval=1), dev('processor', [4], cyc=2, req={'A': 1}), dev('sink', [5], cyc=0)]
+            script = [dict(t=sc * rng.choice([1, 2]) + c, prio=rng.choice([115, 115, 20]), call='workorder', dev=2, res='x')]
+            if rng.random() < 0.5:
+                script.append(dict(t=sc + c + rng.choice([0, 1, 4]), call='workorder', dev=2, res='y'))
+            cfg = dict(devs=devs, script=script, horizon=H + 8, maintcap=rng.choice([1, -1]), pools={'A': rng.choice([1, 1, 2])})
+            fam = 'workorders'
         elif kind == 5 and i % 16 == 13:  # work orders (also two tags on one machine, failures during the order)
             devs = [src(rng.choice([1, 2]), rng.choice([4, 6, -1]), pval=1),
                     dev('processor', [1], cyc=rng.choice([2, 3, 6]), wodur=rng.choice([2, 3, 5]), wocap=rng.choice([0, 0, 1]),
